@@ -19,7 +19,7 @@ endif
 CXXFLAGS := -std=c++11 $(OPT) -g1 -w -DNDEBUG -DNIX_VERIF -DH5_USE_110_API=1 $(SANFLAGS) \
   -I$(REPO)/include -I$(B)/gen -I$(REPO)/backend -I/usr/include/hdf5/serial
 LDFLAGS := $(SANFLAGS) -L/usr/lib/x86_64-linux-gnu/hdf5/serial \
-  -Wl,--wrap=H5Fopen,--wrap=H5Fcreate,--wrap=__cxa_throw \
+  -Wl,--wrap=H5Fopen,--wrap=H5Fcreate,--wrap=H5Dread,--wrap=H5Dwrite,--wrap=__cxa_throw \
   -lhdf5 -lboost_regex -lboost_filesystem -lboost_system -lboost_date_time -ldl -lpthread
 
 NIXSRC := $(shell find $(REPO)/src $(REPO)/backend/hdf5 -name '*.cpp' | sort)
